@@ -335,7 +335,58 @@ def _component_param_cases(tier):
                                    "key": f"component-params/{l1}+{l2}/{op}"}}
 
 
+SHARED = [("X-Trace", "header", "str", "enum_str"), ("page", "query", "int", "str"), ("sid", "cookie", "str", "str")]
+OVERRIDE_SETS = [(), ("X-Trace",), ("page",), ("X-Trace", "page", "sid")]
+
+
+def _pathitem_cases(tier):
+    """A path item whose shared parameters are inherited by some operations and re-declared (same name and location, other schema /
+    requiredness) by others: every operation sends its own view, whatever its siblings override."""
+    methods = ("get", "post", "delete") if tier == "quick" else ("get", "put", "post", "delete")
+    for choice in itertools.product(range(len(OVERRIDE_SETS)), repeat=len(methods)):
+        comps = {}
+        item = {"parameters": [_param(n, loc, k, False, comps) for n, loc, k, _k2 in SHARED]}
+        specs = {}
+        for m, ci in zip(methods, choice):
+            over = OVERRIDE_SETS[ci]
+            op = {"operationId": f"{m}Thing", "responses": {"200": {"description": "ok"}}}
+            spec = []
+            for n, loc, k, k2 in SHARED:
+                if n in over:
+                    op.setdefault("parameters", []).append(_param(n, loc, k2, True, comps))
+                    spec.append({"name": n, "in": loc, "kind": k2, "required": True, "samples": p_samples(k2)})
+                else:
+                    spec.append({"name": n, "in": loc, "kind": k, "required": False, "samples": p_samples(k)})
+            item[m] = op
+            specs[m] = spec
+        doc = gen.base_doc(comps or None, paths={"/shared": item})
+        for m in methods:
+            yield {"labels": ["path-item", "overrides=" + "/".join(",".join(OVERRIDE_SETS[c]) or "-" for c in choice), f"op={m}"],
+                   "payload": {"doc": doc, "options": {}, "method": m, "path": "/shared", "params": specs[m], "op": f"{m}Thing",
+                               "key": f"path-item/{'overrides' if OVERRIDE_SETS[choice[methods.index(m)]] else 'inherits'}"}}
+
+
+OVERRIDES = {"application/zip": "application/octet-stream", "text/json": "application/json", "application/x-thing": "application/json",
+             "application/vnd.acme.form": "application/x-www-form-urlencoded"}
+
+
+def _override_cases(tier):
+    """content_type_overrides: the body is encoded as the target media type but SENT as the media type the document declares."""
+    for declared, target in OVERRIDES.items():
+        for bk, (mk, insts, medias) in BODY_KINDS.items():
+            if target not in [m.split(";")[0] for m in medias]:
+                continue
+            comps = {}
+            body = {"required": True, "content": {declared: {"schema": mk(comps)}}}
+            p, item = _op(method="post", path="/b", body=body)
+            yield {"labels": [f"body={bk}", f"media={declared}", f"override->{target}"],
+                   "payload": {"doc": _doc(p, item, comps), "options": {"content_type_overrides": dict(OVERRIDES)}, "method": "post", "path": "/b", "params": [],
+                               "bodies": [{"media": declared, "encoded_as": target, "kind": bk, "instances": insts}], "key": f"body-override/{bk}/{target}"}}
+
+
 def cases(tier):
+    yield from _pathitem_cases(tier)
+    yield from _override_cases(tier)
     yield from _matrix_cases()
     yield from _body_cases()
     yield from _sequence_cases(tier)
@@ -377,7 +428,7 @@ def _multipart_parts(content, content_type):
 def _check_body(r, b, inst, key):
     out = []
     media = b["media"]
-    base_media = media.split(";")[0].strip()
+    base_media = b.get("encoded_as") or media.split(";")[0].strip()      # content_type_overrides: encoded as the target, sent as declared
     ct = r["content_type"] or ""
     site = f"body:{base_media}"
     if base_media == "multipart/form-data":
